@@ -169,6 +169,7 @@ def execute(plan, tape):
     shared_bp = {}          # client -> blueprint content of that dict
     parsers = {}            # client -> its long-lived SmtLibParser
     models = {}             # client -> its long-lived (partial) EagerModel
+    registrations = []      # generic solvers registered with the aged environment's factory
 
     def probe(n):
         probes[n] = probes.get(n, 0) + 1
@@ -187,7 +188,7 @@ def execute(plan, tape):
                 elif sig2[0] == k and sig2[1] != json.dumps({a: b for a, b in spec.items() if a not in ("client",)}, sort_keys=True):
                     nontrivial = True
                     probe("same_formula_different_arguments")
-        key = json.dumps({a: b for a, b in spec.items() if a not in ("client", "_dict", "_parser", "_foreign", "_others", "_first", "_first_out", "_model")}, sort_keys=True)
+        key = json.dumps({a: b for a, b in spec.items() if a not in ("client", "_dict", "_parser", "_foreign", "_others", "_first", "_first_out", "_model", "_bad_entry")}, sort_keys=True)
         touched.append((spec["client"], subcache[i], (k, key)))
         if len(touched) > 40:
             touched.pop(0)
@@ -204,6 +205,13 @@ def execute(plan, tape):
                 shared_dict[c][bp.build(kt, env)] = bp.build(vt, env)     # in-place update of the client's dict
             spec["_dict"] = shared_dict[c]
             probe("shared_dict_updated_in_place")
+            if spec.get("bad") and shared_bp[c]:
+                kt0 = sorted(shared_bp[c].values(), key=repr)[0][0]
+                if spec["bad"] == "foreign_value":
+                    spec["_bad_entry"] = (bp.build(kt0, env), bp.build(kt0, foreign_env))
+                else:
+                    spec["_bad_entry"] = (bp.build(kt0, foreign_env), bp.build(kt0, env))
+                probe("shared_dict_with_refusable_entry")
         if k == "model_value_shared":
             if spec["client"] not in models:
                 models[spec["client"]] = calls.partial_model(env, symbols)
@@ -270,8 +278,21 @@ def execute(plan, tape):
                     fspec = dict(spec)
                     fspec["_dict"] = dict((bp.build(kt, fresh), bp.build(vt, fresh))
                                           for kt, vt in shared_bp[spec["client"]].values())
+                    if spec.get("_bad_entry") is not None:
+                        kt0 = sorted(shared_bp[spec["client"]].values(), key=repr)[0][0]
+                        if spec["bad"] == "foreign_value":
+                            fspec["_bad_entry"] = (bp.build(kt0, fresh), bp.build(kt0, foreign_env))
+                        else:
+                            fspec["_bad_entry"] = (bp.build(kt0, foreign_env), bp.build(kt0, fresh))
+                if k == "factory":
+                    # the registrations made so far are the only history that legitimately counts
+                    for reg in registrations:
+                        calls.factory_register(fresh, reg)
                 spec_out = calls.outcome(fresh, fspec, ff, term, user) if fspec is not None else aged
-        for k_ in ("_dict", "_parser", "_foreign", "_others", "_first", "_first_out", "_model"):
+        if k == "factory" and spec.get("action") == "add" and aged[0] == "ok":
+            registrations.append(dict(spec))
+            probe("generic_solver_registered")
+        for k_ in ("_dict", "_parser", "_foreign", "_others", "_first", "_first_out", "_model", "_bad_entry"):
             spec.pop(k_, None)
         if aged_build != fresh_build:
             raise Violation("C14:build:history-dependent",
